@@ -252,11 +252,17 @@ LEVELS = ["server", "server_conn", "user", "user_conn", "client"]
 
 def e2e_run(seed):
     """Real server + real client transfers with limits at a random subset of the five levels."""
+    force = None
+    if isinstance(seed, tuple):     # (seed, forced parameters): the independence runs below
+        seed, force = seed
     rng = random.Random(seed)
     on = {lv: (rng.choice([16, 32, 64]) if rng.random() < 0.4 else None) for lv in LEVELS}
     direction = rng.choice(["up", "down"])
     nclients = rng.choice([1, 2, 3])
     size = rng.choice([8, 24, 40])
+    if force:
+        on = {lv: (force["limit"] if lv == force["level"] else None) for lv in LEVELS}
+        direction, nclients, size = force["direction"], force["clients"], force["size"]
     skw = {}
     ukw = {}
     if direction == "up":
@@ -282,7 +288,7 @@ def e2e_run(seed):
     users = [{"id": "u1", "login": "u1", "pw": "", "max": 0, "perms": [], "home": [], "base": ["A"], "kwargs": ukw}]
     # a socket timeout much shorter than the pauses the limits impose, on the side that is being limited (the other side, made to
     # wait by it, has none): the timeout is for the peer's silence, not for the limiter's
-    tmo = rng.choice([None, None, 250])
+    tmo = rng.choice([None, None, 250]) if not force else None
     srv_limited = any(on[lv] for lv in LEVELS[:4])
     sock = tmo if tmo and srv_limited and not on["client"] else 0
     if tmo and on["client"] and not srv_limited:
@@ -296,7 +302,7 @@ def e2e_run(seed):
     try:
         # churn: while the first connection stays logged in, another session of the same user comes and goes (QUIT, or USER again)
         # before the remaining connections log in; the limits shared by the user's connections must still bound their sum
-        churn = nclients >= 2 and rng.random() < 0.4
+        churn = nclients >= 2 and rng.random() < 0.4 and not force
         churn_how = rng.choice(["quit", "reuser", "vanish"])
         first_in, churned = asyncio.Event(), asyncio.Event()
 
@@ -316,7 +322,7 @@ def e2e_run(seed):
                 await asyncio.sleep(0)
             churned.set()
 
-        multi = rng.random() < 0.35   # several transfers one after the other on each client (a data connection each)
+        multi = rng.random() < 0.35 and not force   # several transfers one after the other on each client (a data connection each)
         nx = rng.choice([2, 3, 4]) if multi else 1
 
         def mk(i):
@@ -508,6 +514,21 @@ def run(tier, seed):
         for t in trs:
             traces.append(t)
             owner.append((base + 7 + i, info))
+    # per-connection limits are independent of each other: n connections of one user under a per-connection limit (and nothing
+    # else) each take exactly as long as a single one does
+    ind = [{"level": lv, "limit": lim, "direction": d, "clients": n, "size": 40} for lv in ("server_conn", "user_conn", "client") for lim in (16, 64)
+           for d in ("up", "down") for n in (1, 2, 3)]
+    iouts = P.map(e2e_run, [(base + 5000 + k // 3, f) for k, f in enumerate(ind)], chunksize=2)
+    for k in range(0, len(ind), 3):
+        durs = []
+        for f, (trs, inexact, info) in zip(ind[k:k + 3], iouts[k:k + 3]):
+            chk.cov["evaluations"] += 1
+            if trs is None:
+                raise RuntimeError("e2e harness failure: %r" % (info,))
+            durs.append(None if info.get("failed") else info["duration"])
+        if len(set(durs)) != 1 or durs[0] is None:
+            chk.violation({"at": "e2e-per-connection-independence", "level": ind[k]["level"]}, {"durations_for_1_2_3_connections": durs, "params": ind[k]},
+                          {"family": "independence", "params": ind[k]})
     sysbad = judge.judge("ThrottleSys", [{"bounds": info["bounds"]} for _, _, info in outs], chk)
     for i in sorted(sysbad):
         chk.violation({"at": "e2e-system-bound"}, outs[i][2], {"family": "e2e", "seed": base + 7 + i})
